@@ -27,6 +27,7 @@ type Handler struct {
 	session       *packet.Session
 	probeInterval time.Duration // how often to probe if IP is online
 	huntList      map[string]packet.Addr
+	huntStop      map[string]chan struct{} // closed by StopHunt to end the spoof loop of that mac
 	closed        bool
 	closeChan     chan bool
 }
@@ -45,7 +46,7 @@ func New(session *packet.Session) (h *Handler, err error) {
 }
 
 func (config Config) New(session *packet.Session) (h *Handler, err error) {
-	h = &Handler{session: session, huntList: make(map[string]packet.Addr, 6), closeChan: make(chan bool)}
+	h = &Handler{session: session, huntList: make(map[string]packet.Addr, 6), huntStop: make(map[string]chan struct{}, 6), closeChan: make(chan bool)}
 	if !h.session.NICInfo.HostAddr4.IP.Is4() {
 		return nil, packet.ErrInvalidIP
 	}
